@@ -361,9 +361,37 @@ def elim_build(seed, tier):
     nel = r.randint(1, min(3, len(names) - 1))
     elim = r.sample(names, nel)
     n = r.randint(1, 4)
-    kind = r.choice(["random", "chain", "bounded_ctx", "wrong_direction", "coupled", "coupled"])
+    kind = r.choice(["random", "chain", "bounded_ctx", "wrong_direction", "coupled", "coupled", "coupled3"])
     terms = [g.term(names, 1, 3) for _ in range(n)]
     ctx = []
+    if kind == "coupled3":
+        # one term with THREE eliminated variables of one sign pattern; the context is a 3x3 system with unit (or 2) diagonal and
+        # off-diagonal entries each below the diagonal, whose COLUMN SUMS may or may not stay below it (the third Kaykobad
+        # condition is about column sums), plus optional one-variable bounds
+        names = ["x", "y1", "y2", "y3"]
+        e = ["y1", "y2", "y3"]
+        sg = r.choice([1, -1])
+        t = {g.Var("x"): 1.0}
+        for v in e:
+            t[g.Var(v)] = sg * float(r.choice([1, 1, 2]))
+        terms = [g.PT(t, g.const())]
+        off = r.choice([0.75, 0.75, 0.9, 0.25, 0.6])
+        pattern = r.choice(["tridiagonal", "tridiagonal", "full", "upper"])
+        rows = []
+        for i in range(3):
+            row = {g.Var(e[i]): float(r.choice([1, 1, 1, 2]))}
+            for j in range(3):
+                if j != i and (pattern == "full" or (pattern == "tridiagonal" and abs(i - j) == 1) or (pattern == "upper" and j > i)):
+                    row[g.Var(e[j])] = off if r.random() < 0.85 else -off
+            rows.append(g.PT(dict(row), float(r.choice([1, 2, 3]))))
+        ctx = rows
+        if r.random() < 0.4:
+            for v in e:
+                ctx += g.bounds(v, None, 5)
+        r.shuffle(ctx)
+        elim = list(e)
+        r.shuffle(elim)
+        return {"op": "elim", "kind": kind, "terms": tl_data(terms), "context": tl_data(ctx), "elim": elim, "refine": (sg > 0) if r.random() < 0.85 else (sg < 0), "simplify": r.random() < 0.5, "order": r.choice([[1], [3], [1, 2, 3, 4], [1, 2, 3, 4, 5], [3, 1]])}
     if kind == "coupled" and len(names) >= 3:
         # one term with two eliminated variables (either sign pattern), context rows that couple them with small or
         # large off-diagonal coefficients of either sign, plus one-variable bounds, in random order (Kaykobad-type contexts)
@@ -611,6 +639,10 @@ def refines_case(seed, tier):
 # pinned witnesses (repaired, 2528aca / 9207037): a feasible system ((-3,-2) satisfies every row) that simplify called unsatisfiable,
 # and a row implied with a margin of 0.5 that survived because its bounded LP was answered "unbounded"
 PINNED_SIMPLIFY = [
+    # three lines through (100, 100) with coefficients spanning four orders of magnitude, two half-planes of them in the context:
+    # feasible (one point); the redundancy LPs at tight tolerances answer "infeasible" and only the emptiness test at the default
+    # tolerances puts that right (seed s105)
+    {"op": "simplify", "family": "pinned", "terms": [[{"x": -10.0, "y": -20000.0}, -2001000.0], [{"x": 1000.0, "y": -13.0}, 98700.0], [{"x": 13.0, "y": -1.0}, 1200.0], [{"x": -13.0, "y": 1.0}, -1200.0]], "context": [[{"x": -1000.0, "y": 13.0}, -98700.0], [{"x": 10.0, "y": 20000.0}, 2001000.0]]},
     {"op": "simplify", "family": "pinned", "terms": [[{"x": -7.0}, 21.0], [{"x": 10000.0, "y": 10.0}, -30020.0], [{"x": -10000.0, "y": -10000.0}, 50000.0], [{"y": 1.0}, 0.0]], "context": []},
     {"op": "simplify", "family": "pinned", "terms": [[{"x": -5000.0, "y": 2.0, "z": -1000.0}, 0.0], [{"x": -7.0, "y": -5000.0}, 0.0], [{"x": -5000.0, "y": 2.0, "z": -1000.0}, 0.5]], "context": []},
 ]
@@ -681,8 +713,10 @@ def simplify_eval(p):
         out["stats"]["ValueError"] = 1
         if feasible:
             # thin feasibility is not covered by the property's tolerance reading: check feasibility with a margin
+            # (the families built around an exactly representable point - integer data, a point with integer coordinates - are
+            # feasible in floating point as well: there a ValueError is wrong as it stands)
             shr = type(S)([type(t)(dict(t.variables), t.constant - 1e-6 * (1 + abs(t.constant))) for t in list(S.terms) + list(G.terms)])
-            if feasible_exact(shr):
+            if p.get("family") in ("pinned", "degenerate") or feasible_exact(shr):
                 out["violation"] = {"key": "C07:simplify:valueerror_on_feasible", "prop": "C07", "what": "simplify raised ValueError for a feasible system", "input": p, "monitor": "m_algebra", "fn": "simplify_eval"}
         return out
     except Exception as e:
@@ -811,7 +845,7 @@ FAMILIES = {
 RULES = {
     "compose_case": "random pairs of polyhedral contracts over the wirings %s, vars_to_keep subsets of the connected outputs, simplify on/off, tactics_order from %s; soundness / interface / forgotten guarantees decided by z3 over the box with the property's tolerances; non-trivial = compose returned a contract with at least one term" % (WIRINGS, ORDERS),
     "quotient_case": "dividends built as C1 composed with a hidden partner (3/4) or random (1/4), additional_inputs subsets, simplify on/off, tactic orders; quotient soundness decided by z3; non-trivial = quotient returned with at least one term",
-    "elim_case": "1-4 terms over 2-6 variables, 1-3 eliminated variables, contexts: random / chains / two-sided bounds / wrong-direction bounds; refine or relax, simplify on/off, singleton and mixed tactic orders; implication decided by z3; non-trivial = result differs from the input list",
+    "elim_case": "1-4 terms over 2-6 variables, 1-3 eliminated variables, contexts: random / chains / two-sided bounds / wrong-direction bounds / coupled 2x2 and 3x3 systems (Kaykobad-type, off-diagonal entries below the diagonal with column sums on either side of it); refine or relax, simplify on/off, singleton and mixed tactic orders; implication decided by z3; non-trivial = result differs from the input list",
     "refines_case": "families self, sublist, weakening, positive combinations, duplicates, the same row bounded twice on the right (looser bound first), equal bound, separated, unrelated, unbounded, empty left, empty right, constraints without variables (one or two, failing and holding ones in either order) over 1-4 variables with small-integer/dyadic data; exact containment and beyond-tolerance violation both decided by z3",
     "simplify_case": "up to 6 terms over up to 5 variables with planted duplicates, scalings, positive combinations, context-implied terms, terms shared verbatim with the context, nearly tight terms, infeasible systems, constraints without variables in the list or the context; selection, equivalence and irredundancy-with-margin decided by z3",
     "merge_case": "pairs with shared inputs / shared outputs / disjoint interfaces, with duplicated guarantees across the two, an assumption stated twice in one operand; exactness decided by z3 in both directions, both call orders",
